@@ -1615,6 +1615,17 @@ def run(ctx):
 def replay(path):
     r = json.load(open(path))["replay"]
     entries, _ = enumerate_patches()
+    if r.get("kind") == "adapter-sequence":
+        from jax2onnx.plugins import _patching
+        usable = [e for e in entries if analyse_entry(e)]
+        print("stateless:", adapter_stateless(_patching, usable))
+        ctx = common.Ctx("C19", "thorough", 0)
+        ad = adapter_tie(ctx, usable, 0, 0)
+        bad = [o for o in ctx.obligations if not o["ok"]]
+        for o in bad:
+            print(o["name"], "|", o["detail"][:600])
+        ctx.cleanup()
+        return 1 if bad else 0
     if r.get("kind") == "argument":
         usable = [e for e in entries if analyse_entry(e)]
         import random
